@@ -242,7 +242,12 @@ class QpointsPhonon:
             dynmat = run_dynamical_matrix_solver_c(
                 self._dynamical_matrix, self._qpoints, self._nac_q_direction
             )
-            eigenvectors = dynmat
+            if self._with_dynamical_matrices:
+                # dynmat is returned to the user. Eigenvectors must not
+                # overwrite it.
+                eigenvectors = np.zeros_like(dynmat)
+            else:
+                eigenvectors = dynmat
         elif self._with_eigenvectors:
             dtype = "c%d" % (np.dtype("double").itemsize * 2)
             eigenvectors = np.zeros(
